@@ -92,13 +92,16 @@ func (rv recursiveValuer) Value(key string) (any, bool) {
 		return val, true
 	}
 
+	// 合并到新的字典：不写入文档自身的字典（可能是 nil，也属于调用者）
+	merged := make(map[string]any, len(vm)+len(pm))
 	for k, v := range pm {
-		if _, ok := vm[k]; !ok {
-			vm[k] = v
-		}
+		merged[k] = v
+	}
+	for k, v := range vm {
+		merged[k] = v
 	}
 
-	return vm, true
+	return merged, true
 }
 
 // Parent get the parent valuer from rv.
